@@ -179,6 +179,9 @@ family! {
     /// untagged enum with a unit variant (unit = empty array)
     #[serde(untagged)]
     pub enum H { A, B(bool) }
+    /// untagged enum holding a 64-bit signed integer: exercises `deserialize_any` on every integer head width
+    #[serde(untagged)]
+    pub enum Hi { A(i64) }
     /// untagged enum holding a char (char = its scalar value as an unsigned integer)
     #[serde(untagged)]
     pub enum Hc { A(char) }
@@ -683,7 +686,7 @@ mod h {
     //      struct variant I::B, untagged struct variant G::C, flattened struct F): the recursive drop glue of
     //      serde's Content is unrolled at every level by CBMC; > 17 min / 13 GB even on literal input.  Their
     //      serializer side is covered (section 2); ground truth on literal inputs was taken natively (NOTES.md).
-    use super::Hc;
+    use super::{Hc, Hi};
 
     // @harness name=c17_de_internal_unit props=C17 kind=complete
     de_h!(c17_de_internal_unit, || { let o = Out::new(kani::any()).map(1).t1(b't').t1(b'A'); expect_de(&o, &I::A) });
@@ -707,6 +710,21 @@ mod h {
     de_h!(c17_de_untagged_h_bool, || {
         let y: bool = kani::any();
         each_bool!(y, |yc| { let o = Out::new(kani::any()).bool(yc); expect_de(&o, &H::B(yc)) })
+    });
+
+    // i64 behind deserialize_any: literal boundary values at the 4- and 8-byte head widths (a symbolic argument behind the
+    // buffered `Content` did not finish in 500 s)
+    // @harness name=c17_de_untagged_i64 props=C17 kind=bounded bound="Hi::A with the literal values 2^31, 2^32, i64::MAX, -2^31, -2^31-1, -2^32-1, i64::MIN"
+    de_h!(c17_de_untagged_i64, || {
+        let mut ok = true;
+        let o = Out::new(kani::any()).head_w(0, 1u64 << 31, 4);            ok = ok && expect_de(&o, &Hi::A(1i64 << 31));
+        let o = Out::new(kani::any()).head_w(0, 1u64 << 32, 8);            ok = ok && expect_de(&o, &Hi::A(1i64 << 32));
+        let o = Out::new(kani::any()).head_w(0, i64::MAX as u64, 8);       ok = ok && expect_de(&o, &Hi::A(i64::MAX));
+        let o = Out::new(kani::any()).head_w(1, (1u64 << 31) - 1, 4);      ok = ok && expect_de(&o, &Hi::A(-(1i64 << 31)));
+        let o = Out::new(kani::any()).head_w(1, 1u64 << 31, 4);            ok = ok && expect_de(&o, &Hi::A(-(1i64 << 31) - 1));
+        let o = Out::new(kani::any()).head_w(1, 1u64 << 32, 8);            ok = ok && expect_de(&o, &Hi::A(-(1i64 << 32) - 1));
+        let o = Out::new(kani::any()).head_w(1, i64::MAX as u64, 8);       ok = ok && expect_de(&o, &Hi::A(i64::MIN));
+        ok
     });
 
     // ---- known failures (candidate defects): each asserts the CORRECT behaviour on the failing class only
